@@ -12,6 +12,24 @@ CHECKS = {
    note="Trusted: hook H2 snapshot is faithful; 64-bit fingerprint collisions ignored; strings/work units outside the alphabet and histories beyond the depth bound are not covered.",
    design_ref="DESIGN.md §5 C17"),
 }
+CHECKS["C10"] = dict(
+   category="model_checking",
+   technique="explicit-state BFS over edit histories of the real ServerState (implementation is the transition function); differential invariant against a freshly constructed server",
+   text="Every history of update / multi-update / remove / multi-remove / rename / multi-rename over 4 module names and 13 colliding texts (changed exported signatures, importers, transitive-through-signature dependants, cycles, missing/self imports, local type errors, syntax errors, empty) from 8 initial servers is executed on the real ServerState up to depth 3 (quick) / to the fixpoint of the reachable state space (thorough); after every transition the diagnostics of every module must equal those of ServerState::new on the same contents. States merged by contents + stored errors + full global-signature dump.",
+   note="Trusted: hook H3 accessors; content/ops alphabet; diagnostics compared as sorted rendered lists; 64-bit fingerprints.",
+   design_ref="DESIGN.md §5 C10")
+CHECKS["C11"] = dict(
+   category="model_checking",
+   technique="stateless exhaustive exploration of edit histories of the real ServerState with the complete query sweep after every edit (no state merging), oracle: catch_unwind",
+   text="Every edit history (33 edit ops: updates with 7 texts, removes, renames incl. absent/never-existing modules) of depth 1 with every line/column swept and depth 2 with token-boundary positions (quick) / depth 2 with every column (thorough) from 5 initial servers; after every edit all 11 request kinds (hover, definition, references, signature help, completion, code actions, rename valid/invalid, folding, formatting, diagnostics rendering) at every position incl. out-of-range ones and on absent modules. Every edit runs the production GC slice; contents put >15-byte (GC-managed) names in every identifier position.",
+   note="Trusted: catch_unwind observes every abort path of interest (stack overflow/abort would crash the engine = machinery failure). Incremental mark/sweep schedules beyond the production driver's are covered at heap level by C17.",
+   design_ref="DESIGN.md §5 C11")
+CHECKS["C08"] = dict(
+   category="exploration",
+   technique="bounded-exhaustive enumeration of expression templates x parenthesisation, literal classes, declaration forms and corpus files x line widths; oracle: re-parse and structural AST equality",
+   text="All template-filled expressions up to depth 2 (quick) / 3 (thorough) over 30 constructs (every binary operator, unary, postfix, if/if-let/match/lambda/block/tuple) with every child both bare and parenthesised, 34 literal spellings x 8 operand contexts, 14 declaration forms, and every .sam file of tests/, std/ and /verif/corpus at widths {1..200}: whenever the input parses, format -> re-parse must succeed and give the same tree (independent structural dump).",
+   note="Trusted: synt::dump_module covers every AST field except locations/comments; one non-atom child per template level.",
+   design_ref="DESIGN.md §5 C08")
 NOT_YET = "check not built yet in this round (planned: see DESIGN.md §5)"
 
 hooks_commits = subprocess.run(["git","-C","/repo","log","--format=%H %s"],capture_output=True,text=True).stdout.splitlines()
